@@ -164,6 +164,9 @@ def check(an: Analysis) -> None:
     cs = calls_to(an, upd, rep.qualname)
     if not cs:
         ob.fail(upd, None, "updated does not go through __replace__")
+    for r in [r for r in upd.own_nodes() if isinstance(r, ast.Return)]:
+        if unwrap(r.value) not in cs:
+            ob.fail(upd, r, "updated has a return path that does not rebuild through __replace__ (e.g. `return self` when values merely compare equal: replacements are neither validated nor applied)")
     for c in cs:
         ob.inst(upd, c)
         kw = upd.node.args.kwarg.arg if upd.node.args.kwarg else None
